@@ -120,6 +120,9 @@ def eval_call(eng, e, st):
         if fn in ("b64_ok", "b64u_ok") and fn not in st.env:
             a_ = eng.as_iseq(st, eng.ev1(e.args[0], st)).t
             return [(st, VBool(getattr(smt, fn)(a_)))]
+        if fn == "seeded_bits" and fn not in st.env:
+            a_ = [eng.as_int(st, eng.ev1(x, st)) for x in e.args]
+            return [(st, VInt(smt.seeded_bits(*a_)))]
         if fn == "rng" and fn not in st.env:
             return [(st, VInt(smt.rng(eng.as_int(st, eng.ev1(e.args[0], st)))))]
         if fn == "fill" and fn not in st.env:
